@@ -4,7 +4,7 @@ open PwVerif PwVerif.Macro PwVerif.Proto
 
 /-! Line-protocol driver for C09.
 
-    cfg <0|1>                         dupRetRefused
+    cfg <0|1> <0|1>                   dupRetRefused, unused parameter unlinked (0 = pinned dangling link)
     def <node>                        the top-level macro class (prefix token form, see `pNode`)
     build <n> (<k> <val>)*            instantiate with keyword arguments
     setin <path> <k> <val>            node_at_path.inputs[k].value = val
@@ -112,22 +112,23 @@ partial def showSt : Node → St → String
     let kids := " ".intercalate ((idxs body).map fun (j, n) => showSt n (σ.sub j))
     s!"M[{showVals (σ.get .inp) args.length}|{showVals (σ.get .out) rets.length}|{uis}|{kids}]"
 
-def showLink : Link → String
+def showRecv : Recv → String
   | .ui => "ui"
   | .child j i => s!"c{j}.{i}"
-  | .gone => "gone"
+  | .orphan => "gone"
+  | .none => "none"
 
 def showPeer : Peer → String
   | .ui k => s!"u{k}"
   | .kid j o => s!"c{j}.{o}"
 
-partial def showStatic : Node → String
+partial def showStatic (cfg : Cfg) : Node → String
   | .leaf _ _ => "L"
   | .mac args body rets _ _ =>
-    let links := ",".intercalate ((List.range args.length).map fun k => showLink (link body rets k))
+    let links := ",".intercalate ((List.range args.length).map fun k => showRecv (receiverOf cfg body rets k))
     let conns := ",".intercalate (((idxs body).map fun (j, n) =>
       (kidConns (kept body rets) n.srcs 0).map fun (i, p) => s!"{j}.{i}<{showPeer p}").flatten)
-    let kids := ",".intercalate (body.map showStatic)
+    let kids := ",".intercalate (body.map (showStatic cfg))
     s!"M(links=[{links}];conns=[{conns}];kids=[{kids}])"
 
 partial def showIface : Node → String
@@ -178,11 +179,13 @@ def live (s : DS) (f : Node → St → DS × List String) : DS × List String :=
 
 def step (s : DS) (ws : List String) : DS × List String :=
   match ws with
-  | ["cfg", b] =>
-    match b.toNat? with
-    | some 0 => ({ s with cfg := Cfg.pinned }, [])
-    | some 1 => ({ s with cfg := Cfg.repaired }, [])
-    | _ => (s, ["bad-op"])
+  | ["cfg", a, b] =>
+    match a.toNat?, b.toNat? with
+    | some a, some b =>
+      if a ≤ 1 ∧ b ≤ 1 then
+        ({ s with cfg := { dupRetRefused := a == 1, unusedDangling := b == 0 } }, [])
+      else (s, ["bad-op"])
+    | _, _ => (s, ["bad-op"])
   | "def" :: rest =>
     match pNode rest with
     | some (n@(.mac ..), []) => ({ s with dfn := some n, st := none }, [])
@@ -194,7 +197,7 @@ def step (s : DS) (ws : List String) : DS × List String :=
       else
         let σ := applyKw n (build n) kw
         ({ s with st := some σ, dead := false, pristine := true },
-         ["build ok", "iface " ++ showIface n, "static " ++ showStatic n, "st " ++ showSt n σ])
+         ["build ok", "iface " ++ showIface n, "static " ++ showStatic s.cfg n, "st " ++ showSt n σ])
     | _, _ => (s, ["bad-op"])
   | "setin" :: p :: rest =>
     match pPath p, pKw rest with
